@@ -1,5 +1,5 @@
 PROP = dict(
-  units=['scq:enq_c1_f1,enq_c2_f1,deq_c1_f1,deq_c2_f1,catchup_f1,finalize', 'ram', 'msq', 'pqt', 'kbq:slot_word,dtor,push_null,push_k1_s123,push_k2_s123,pop_k2_s123,push_int,pop_int,init', 'kfq', 'vbq', 'nbq', 'nq'],
+  units=['scq:enq_c1_f1,enq_c2_f1,deq_c1_f1,deq_c2_f1,enq_c1_f1_anygap,deq_c1_f1_anygap,enq_c2_f1_anygap,deq_c2_f1_anygap,catchup_f1,finalize', 'ram', 'msq', 'pqt', 'kbq:slot_word,dtor,push_null,push_k1_s123,push_k2_s123,pop_k2_s123,push_int,pop_int,init', 'kfq', 'vbq', 'nbq', 'nq'],
   level='other',
   strict_obligations=True,
   obligations=['kbq.slot.any_pointer', 'kfq.slot.any_pointer', 'scq.enqueue.finalized_fails', 'scq.enqueue.appends', 'scq.catchup.keeps_finalized', 'scq.finalize.sets',
